@@ -269,6 +269,40 @@ def _features(step, d_prev, value_prev):
     return "&".join(f) or "-"
 
 
+SHAPE_FACETS = ("lazy-shape", "lazy-chunks", "block-shape", "block-count", "block-placement", "block-compute")
+
+
+def _negative_step(st):
+    if st["op"] in ("flip", "rot90"):
+        return True
+    return st["op"] == "getitem" and any(it[0] == "s" and it[3] is not None and it[3] < 0 for it in st["index"])
+
+
+def classify(st, name, feat, facet):
+    """Mechanism label.  Default ``<step variant>:<input features>:<facet>``; the mechanisms that were triaged on the
+    unchanged tree get ONE label each, whatever operation/symptom variant reaches them."""
+    f = set(feat.split("&"))
+    shapeish = facet.startswith(SHAPE_FACETS)
+    op = st.get("op")
+    if SHORT_AXIS in f:
+        return "aligned-op:%s:blocks-do-not-match-chunks" % SHORT_AXIS          # unify_chunks
+    empty = bool(f & {"zero-length", "zero-size-chunk"})
+    if empty and shapeish and op == "reduce" and st["fn"] in ("min", "max", "nanmax", "nanmin"):
+        return "reduce.minmax:empty-blocks:result-shape"                          # chunk_min/chunk_max placeholder
+    if empty and shapeish and op == "searchsorted":
+        return "searchsorted:empty-blocks:result-shape"                           # same, through out.max(axis=0)
+    if "zero-size-chunk" in f:
+        if _negative_step(st) and facet.startswith("vs-numpy"):
+            return "negative-step-slice:zero-size-chunk:" + facet
+        if op == "cum" and st.get("method") == "sequential" and shapeish:
+            return "cum.sequential:zero-size-chunk:result-shape"
+        if op == "reduce" and st["fn"] in ("var", "std") and facet == "vs-numpy-values":
+            return "reduce.var-std:zero-size-chunk:vs-numpy-values"
+        if op == "coarsen" and shapeish:
+            return "coarsen:zero-size-chunk:result-shape"
+    return "%s:%s:%s" % (name, feat, facet)
+
+
 def run_case(case, ctx):
     import dask
     import dask.array as da
@@ -324,11 +358,9 @@ def run_case(case, ctx):
                 st = steps[k - 1] if k else {"op": "from_array"}
                 feat = _features(st, stages[k - 1] if k else None, exp[k - 1] if k else x)
                 name = O.variant(st)
-                short_axis = SHORT_AXIS in feat
-                if short_axis:
-                    name, feat = "aligned-op", SHORT_AXIS   # one mechanism (unify_chunks), whatever the operation built on it
-                if "zero-length" in feat and st["op"] == "reduce" and st["fn"] in ("min", "max", "nanmax", "nanmin"):
-                    name = "reduce.minmax"             # one mechanism (chunk_min/chunk_max on empty blocks)
+
+                def lab(facet, st=st, name=name, feat=feat):
+                    return classify(st, name, feat, facet)
                 if values is not None:
                     whole = values[k]
                 else:
@@ -346,7 +378,7 @@ def run_case(case, ctx):
                         except Exception:  # noqa: BLE001
                             m = None
                         if m:
-                            ctx.violation("%s:%s:%s" % (name, feat, "blocks-do-not-match-chunks" if short_axis else m[0]),
+                            ctx.violation(lab(m[0]),
                                           m[1] + " (and the whole stage raises %s)" % exc_label(ex),
                                           step=st, stage=k, lazy_chunks=str(d.chunks))
                             return
@@ -362,14 +394,13 @@ def run_case(case, ctx):
                 try:
                     m = stage_mismatch(d, whole, ctx)
                 except Exception as ex:  # noqa: BLE001
-                    if short_axis:
-                        m = ("blocks-do-not-match-chunks", "computing the blocks one by one raises %s: %s" % (exc_label(ex), ex))
-                    else:
-                        ctx.exception(ex, prefix="%s:%s:block-compute" % (name, feat), step=st, stage=k, lazy_chunks=str(d.chunks))
-                        return
+                    from ..core.ctx import CaseTimeout
+
+                    if isinstance(ex, CaseTimeout):
+                        raise
+                    m = ("block-compute:" + exc_label(ex), "computing the blocks one by one raises %s: %s" % (type(ex).__name__, ex))
                 if m:
-                    facet = "blocks-do-not-match-chunks" if short_axis else m[0]
-                    ctx.violation("%s:%s:%s" % (name, feat, facet), m[1], step=st, stage=k, lazy_chunks=str(d.chunks), lazy_dtype=str(d.dtype))
+                    ctx.violation(lab(m[0]), m[1], step=st, stage=k, lazy_chunks=str(d.chunks), lazy_dtype=str(d.dtype))
                     return
                 # NumPy differential (catches metadata that is wrong together with the computation)
                 if k and O.inexact(st, e.dtype.kind):
@@ -382,7 +413,7 @@ def run_case(case, ctx):
                 ctx.count("compared_with_numpy")
                 m = compare_arrays(whole, e, exact=not inexact, n=nmax, scale=scale * scale)
                 if m:
-                    ctx.violation("%s:%s:vs-numpy-%s" % (name, feat, m[0]), m[1], step=st, stage=k, lazy_chunks=str(d.chunks))
+                    ctx.violation(lab("vs-numpy-" + m[0]), m[1], step=st, stage=k, lazy_chunks=str(d.chunks))
                     return
             if joint_ex is not None:
                 ctx.exception(joint_ex, prefix="joint-compute-only")
